@@ -46,28 +46,34 @@ class Gen:
         if name is None:
             self.n += 1
             name = "T%d" % self.n
-        inner = t["inner"] if t["k"] == "del" else t
-        lines = []
-        if inner["k"] == "un":
-            lines.append("@union")
-        if offset_prints and inner["k"] == "st":
-            lines.append("@print _offset_")
-        for j, ft in enumerate(inner["f"]):
-            if ft["k"] == "void":
-                lines.append(self.prim(ft))
-            else:
-                lines.append("%s f%d" % (self.expr(ft), j + 1))
-            if offset_prints and (inner["k"] == "st" or j + 1 == len(inner["f"])):
-                lines.append("@print _offset_")
-        # constants are attributes but not fields: they must not influence layout, tags, offsets or the wire format
-        lines.append("uint8 K_ONE = 1")
-        lines.append("float16 K_HALF = 0.5")
-        lines.extend(extra_lines)
-        lines.append("@extent %d" % t["x"] if t["k"] == "del" else "@sealed")
+        lines = self.body_lines(t, extra_lines, offset_prints)
         full = "%s.%s.%s" % (self.ns, name, version)
         self.files["%s/%s.%s.dsdl" % (self.ns, name, version)] = "\n".join(lines) + "\n"
         self.names[key] = full
         return full
+
+def _body_lines(self, t, extra_lines=(), offset_prints=False, field_prefix="f"):
+    """The statements of one schema (a message, or one section of a service) for composite t."""
+    inner = t["inner"] if t["k"] == "del" else t
+    lines = []
+    if inner["k"] == "un":
+        lines.append("@union")
+    if offset_prints and inner["k"] == "st":
+        lines.append("@print _offset_")
+    for j, ft in enumerate(inner["f"]):
+        if ft["k"] == "void":
+            lines.append(self.prim(ft))
+        else:
+            lines.append("%s %s%d" % (self.expr(ft), field_prefix, j + 1))
+        if offset_prints and (inner["k"] == "st" or j + 1 == len(inner["f"])):
+            lines.append("@print _offset_")
+    # constants are attributes but not fields: they must not influence layout, tags, offsets or the wire format
+    lines.append("uint8 K_ONE = 1")
+    lines.append("float16 K_HALF = 0.5")
+    lines.extend(extra_lines)
+    lines.append("@extent %d" % t["x"] if t["k"] == "del" else "@sealed")
+    return lines
+Gen.body_lines = _body_lines
 
 def wrap_field(gen: Gen, t) -> str:
     """A structure W with the single field `x` of type t (void: padding). Returns W's full name."""
